@@ -37,7 +37,12 @@ Record ex_view (f : list Z) (atoms path : list mp4_atom) (off old : Z) := mkView
   v_region : mp4_region_of path = Some (off, old);
   v_FA : mp4_forest_ok f false v_A (ma_off v_meta + ma_hdr v_meta + mp4_skip (ma_name v_meta)) off = true;
   v_FR : mp4_forest_ok f false v_R off (off + old) = true;
-  v_FB : mp4_forest_ok f false v_B (off + old) (ma_off v_meta + ma_len v_meta) = true
+  v_FB : mp4_forest_ok f false v_B (off + old) (ma_off v_meta + ma_len v_meta) = true;
+  (* the four atoms are the FIRST ones with their name among their siblings *)
+  v_T1no : Forall (fun x => ma_name x <> N_moov) v_T1;
+  v_M1no : Forall (fun x => ma_name x <> N_udta) v_M1;
+  v_U1no : Forall (fun x => ma_name x <> N_meta) v_U1;
+  v_Ano : Forall (fun x => ma_name x <> N_ilst) v_A
 }.
 
 Lemma existing_view f atoms path :
@@ -45,18 +50,18 @@ Lemma existing_view f atoms path :
   exists off old, inhabited (ex_view f atoms path off old).
 Proof.
   intros Hwf Hp. destruct (ilst_path_decomp _ _ Hp) as (moov & udta & meta & ilst & km & ku & ke & -> & C1 & K1 & C2 & K2 & C3 & K3 & C4).
-  destruct (child_split _ _ _ C1) as (T1 & T2 & E1 & N1 & _).
-  destruct (child_split _ _ _ C2) as (M1 & M2 & E2 & N2 & _).
-  destruct (child_split _ _ _ C3) as (U1 & U2 & E3 & N3 & _).
+  destruct (child_split _ _ _ C1) as (T1 & T2 & E1 & N1 & X1).
+  destruct (child_split _ _ _ C2) as (M1 & M2 & E2 & N2 & X2).
+  destruct (child_split _ _ _ C3) as (U1 & U2 & E3 & N3 & X3).
   destruct (child_split _ _ _ C4) as (_ & _ & _ & N4 & _).
   subst atoms km ku.
   pose proof (forest_ok_split _ _ _ _ _ _ _ Hwf) as (_ & Hm & _).
   destruct (atom_ok_kids _ _ _ _ Hm K1) as (_ & Hk1). pose proof (forest_ok_split _ _ _ _ _ _ _ Hk1) as (_ & Hu & _).
   destruct (atom_ok_kids _ _ _ _ Hu K2) as (_ & Hk2). pose proof (forest_ok_split _ _ _ _ _ _ _ Hk2) as (_ & He & _).
   destruct (atom_ok_kids _ _ _ _ He K3) as (_ & Hk3).
-  destruct (region_decomp f meta ke ilst moov udta _ _ K3 C4 Hk3) as (A & R & B & off & old & -> & HS & HRg & FA & FR & FB).
+  destruct (region_decomp f meta ke ilst moov udta _ _ K3 C4 Hk3) as (A & R & B & off & old & -> & HS & HRg & FA & FR & FB & X4).
   exists off, old. constructor.
-  exact (mkView f _ _ off old moov udta meta ilst T1 T2 M1 M2 U1 U2 A R B eq_refl eq_refl K1 K2 K3 N1 N2 N3 N4 HS HRg FA FR FB).
+  exact (mkView f _ _ off old moov udta meta ilst T1 T2 M1 M2 U1 U2 A R B eq_refl eq_refl K1 K2 K3 N1 N2 N3 N4 HS HRg FA FR FB X1 X2 X3 X4).
 Qed.
 
 (* ------------------------------------------------------------------ unfolding mp4_save_existing *)
@@ -164,7 +169,7 @@ Proof.
   assert (Hc : ilst_clean (v_ilst _ _ _ _ _ V) = true).
   { unfold mp4_tags_clean in Hclean. rewrite Hpath, (v_path _ _ _ _ _ V) in Hclean. exact Hclean. }
   destruct (pk_runs f atoms path off old V Hforest Htab Hc ilst_data cb f' final_existing) as (f2 & R1 & R2).
-  destruct V as [moov udta meta ilst T1 T2 M1 M2 U1 U2 A R B Vp Va K1 K2 K3 N1 N2 N3 N4 HS HRg FA FR FB]. cbn in *.
+  destruct V as [moov udta meta ilst T1 T2 M1 M2 U1 U2 A R B Vp Va K1 K2 K3 N1 N2 N3 N4 HS HRg FA FR FB X1 X2 X3 X4]. cbn in *.
   pose proof (existing_result_wellformed f atoms Hforest Htab moov udta meta ilst T1 T2 M1 M2 U1 U2 A R B off old
                 Va K1 K2 K3 N1 N2 N3 HS FA FR FB Hc _ f2 f' R1 R2 ilst_data (new_pad cb f off old ilst_data) it eq_refl
                 (Z.le_min_l _ _) Hit) as W.
@@ -201,7 +206,7 @@ Proof.
   destruct (pk_runs f atoms path off old V Hforest Htab Hc ilst_data cb f' final_existing) as (f2 & R1 & R2).
   destruct (pk_fits f atoms path off old V Hforest Htab Hc ilst_data cb f' final_existing) as (F0 & F1 & F2).
   pose proof (v_region _ _ _ _ _ V) as HRg0.
-  destruct V as [moov udta meta ilst T1 T2 M1 M2 U1 U2 A R B Vp Va K1 K2 K3 N1 N2 N3 N4 HS HRg FA FR FB]. cbn in *.
+  destruct V as [moov udta meta ilst T1 T2 M1 M2 U1 U2 A R B Vp Va K1 K2 K3 N1 N2 N3 N4 HS HRg FA FR FB X1 X2 X3 X4]. cbn in *.
   set (data := new_region cb f off old ilst_data) in *.
   pose proof (ex_result f atoms Hforest Htab moov udta meta ilst T1 T2 M1 M2 U1 U2 A R B off old
                 Va K1 K2 K3 N1 N2 N3 HS FA FR FB Hc data f2 f' R1 R2) as (Z & Fr & AGD & UA & U4 & U8 & UT).
@@ -231,7 +236,7 @@ Proof.
   assert (Hc : ilst_clean (v_ilst _ _ _ _ _ V) = true).
   { unfold mp4_tags_clean in Hclean. rewrite Hpath, (v_path _ _ _ _ _ V) in Hclean. exact Hclean. }
   destruct (pk_runs f atoms path off old V Hforest Htab Hc ilst_data cb f' final_existing) as (f2 & R1 & R2).
-  destruct V as [moov udta meta ilst T1 T2 M1 M2 U1 U2 A R B Vp Va K1 K2 K3 N1 N2 N3 N4 HS HRg FA FR FB]. cbn in *.
+  destruct V as [moov udta meta ilst T1 T2 M1 M2 U1 U2 A R B Vp Va K1 K2 K3 N1 N2 N3 N4 HS HRg FA FR FB X1 X2 X3 X4]. cbn in *.
   exact (existing_result_wf f atoms Hforest Htab moov udta meta ilst T1 T2 M1 M2 U1 U2 A R B off old
            Va K1 K2 K3 N1 N2 N3 HS FA FR FB Hc _ f2 f' R1 R2 ilst_data (new_pad cb f off old ilst_data) it eq_refl
            (Z.le_min_l _ _) Hit Hheight Hith Hcov Hent Hic).
